@@ -3,6 +3,8 @@ package main
 import (
 	"fmt"
 	"go/types"
+	"math/big"
+	"strings"
 
 	"golang.org/x/tools/go/ssa"
 )
@@ -102,8 +104,12 @@ func checkC01(c *Checker) {
 			}
 			nret++
 			m := mods(o)
+			here := shapeAssume(b)
+			for _, fc := range o.St.facts.list {
+				here.add(fc)
+			}
 			okRegion := len(m) == 1 && m[0].Kind == EStoreElem && m[0].Stor.Name == dstStor && len(m[0].Loops) == 1 &&
-				eqInt(m[0].Loops[0].Trip, N) && eqInt(m[0].Idx, m[0].Loops[0].K)
+				eqUnder(m[0].Loops[0].Trip, N, here) && eqInt(m[0].Idx, m[0].Loops[0].K)
 			if okRegion {
 				inner, n := stripConv(valTerm(m[0].Val))
 				okRegion = n <= 1 && isElemOf(inner, srcStor, m[0].Loops[0].K)
@@ -119,6 +125,9 @@ func checkC01(c *Checker) {
 			want := specCeilDiv(N, b.ch())
 			asm := shapeAssume(b)
 			asm.add(Cond{Kind: CGE0, P: normInt(mkAtom("len("+sn+")", intT))})
+			for _, fc := range o.St.facts.list {
+				asm.add(fc)
+			}
 			okRet := ret != nil && eqUnder(ret, want, asm)
 			c.expect(okRet, "C01-R5", name, c.pos(o.Pos), "returns "+pretty(want), fmt.Sprintf("returns %s, expected %s", pretty(canonOrNil(ret)), pretty(want)))
 		}
@@ -127,7 +136,7 @@ func checkC01(c *Checker) {
 		}
 	}
 
-	// ---- WriteStriped
+	// ---- WriteStriped / ReadStriped: regions are compared as index sets (see stripedRegion)
 	if fn := c.anchor("C01-R3", "WriteStriped"); fn != nil {
 		s := c.Summary(fn)
 		if !c.undecidedEffects("C01-R3", "WriteStriped", s) {
@@ -146,65 +155,51 @@ func checkC01(c *Checker) {
 					continue
 				}
 				nret++
-				m := mods(o)
-				var W *Term
+				where := c.pos(fn.Pos())
+				W := valTerm(o.Ret)
+				okW := W != nil && isStripedWidth(W, sn, b, assume)
+				c.expect(okW, "C01-R5", "WriteStriped", c.pos(o.Pos), "returns W = min(max_c len(src[c]), Length(dst))",
+					fmt.Sprintf("returns %s, expected the write width W = min(max_c len(src[c]), Length(dst))", pretty(canonOrNil(W))))
+				if !okW {
+					continue
+				}
 				okA, okB, extra := false, false, 0
+				why := ""
+				var matchedA, matchedB []*Effect
+				m := mods(o)
 				for _, e := range m {
-					if e.Kind != EStoreElem || e.Stor.Name != b.stor() || len(e.Loops) != 2 {
+					rg, err := stripedRegion(e, b, sn, assume, o.St.facts, W)
+					if err != "" || e.Stor.Name != b.stor() {
 						extra++
+						why = err
 						continue
 					}
-					outer, innerL := e.Loops[0], e.Loops[1]
-					if !(eqInt(outer.Trip, b.ch()) || eqInt(outer.Trip, mkAtom("len("+sn+")", intT))) {
-						extra++
-						continue
-					}
-					if !isStripedWidth(innerL.Trip, sn, b, assume) {
-						extra++
-						continue
-					}
-					W = innerL.Trip
-					wantIdx := specAdd(specMul(b.ch(), innerL.K), outer.K)
-					if !eqInt(e.Idx, wantIdx) {
-						extra++
-						continue
-					}
-					chName := fmt.Sprintf("%s[%s]", sn, pretty(canon(outer.K)))
-					inRange := Cond{Kind: CGE0, P: normInt(mkAtom("len("+chName+")", intT)).Sub(normInt(innerL.K)).AddInt(-1)}
-					v := valTerm(e.Val)
+					rowLen := mkAtom(fmt.Sprintf("len(%s[%s])", sn, pretty(rg.c)), intT)
+					filled := specMin(rowLen, W)
+					rowName := fmt.Sprintf("%s[%s]", sn, pretty(rg.c))
 					switch {
-					case hasFact(e.Facts, inRange):
-						inner, n := stripConv(v)
-						if n <= 1 && isElemOf(inner, chName, innerL.K) && !okA {
-							okA = true
-						} else {
-							extra++
-						}
-					case hasFact(e.Facts, inRange.Not()):
-						if z, isC := normIntConst(v); isC && z == 0 && !okB {
-							okB = true
-						} else {
-							extra++
-						}
+					case !rg.zero && rg.srcStor != nil && rg.srcStor.Name == rowName && eqInt(rg.srcIdx, rg.i) &&
+						eqUnder(rg.lo, zeroT(), rg.facts) && eqUnder(rg.hi, filled, rg.facts) && disjointFrom(e, matchedA):
+						okA = true
+						matchedA = append(matchedA, e)
+					case rg.zero && eqUnder(rg.lo, filled, rg.facts) && eqUnder(rg.hi, W, rg.facts) && disjointFrom(e, matchedB):
+						okB = true
+						matchedB = append(matchedB, e)
 					default:
 						extra++
+						why = fmt.Sprintf("region [%s, %s) of %s is neither the copied prefix [0, min(len(src[c]), W)) nor the zero fill [min(len(src[c]), W), W)",
+							pretty(simplifyUnder(rg.lo, rg.facts)), pretty(simplifyUnder(rg.hi, rg.facts)), e.String())
 					}
 				}
-				where := c.pos(fn.Pos())
-				c.expect(okA && okB, "C01-R3", "WriteStriped", where, "data[channels*i+c] <- conv(src[c][i]) if i < len(src[c]) else 0, c < channels, i < W",
-					fmt.Sprintf("striped write regions not recognised (copy region found: %v, zero-fill region found: %v): %s", okA, okB, describeEffects(m)))
-				c.expect(extra == 0, "C01-R4", "WriteStriped", where, "no other store or external effect", fmt.Sprintf("%d effects outside the two striped regions: %s", extra, describeEffects(m)))
-				ret := valTerm(o.Ret)
-				c.expect(W != nil && ret != nil && eqInt(ret, W), "C01-R5", "WriteStriped", c.pos(o.Pos), "returns W = min(max_c len(src[c]), Length(dst))",
-					fmt.Sprintf("returns %s, expected the write width W = min(max_c len(src[c]), Length(dst))", pretty(canonOrNil(ret))))
+				c.expect(okA && okB, "C01-R3", "WriteStriped", where, "data[channels*i+c] <- conv(src[c][i]) for i < min(len(src[c]), W), 0 for the rest up to W, every channel c",
+					fmt.Sprintf("striped write regions not recognised (copy region found: %v, zero-fill region found: %v) %s: %s", okA, okB, why, describeEffects(m)))
+				c.expect(extra == 0, "C01-R4", "WriteStriped", where, "no other store or external effect", fmt.Sprintf("%d effects outside the two striped regions (%s): %s", extra, why, describeEffects(m)))
 			}
 			if nret == 0 {
 				c.undecided("C01-R3", "WriteStriped", c.pos(fn.Pos()), "no feasible return path")
 			}
 		}
 	}
-
-	// ---- ReadStriped
 	if fn := c.anchor("C01-R3", "ReadStriped"); fn != nil {
 		s := c.Summary(fn)
 		if !c.undecidedEffects("C01-R3", "ReadStriped", s) {
@@ -225,29 +220,56 @@ func checkC01(c *Checker) {
 				nret++
 				m := mods(o)
 				okR, extra := false, 0
+				why := ""
 				var outerL *LoopCtx
+				var matched []*Effect
 				for _, e := range m {
-					if e.Kind != EStoreElem || len(e.Loops) != 2 {
+					if e.Kind != EStoreElem || len(e.Loops) != 2 || e.Stor.Parent == nil || e.Stor.Parent.Name != sn {
 						extra++
 						continue
 					}
-					outer, innerL := e.Loops[0], e.Loops[1]
-					chName := fmt.Sprintf("%s[%s]", sn, pretty(canon(outer.K)))
-					wantTrip := specMin(mkAtom("len("+chName+")", intT), b.length())
-					inner, n := stripConv(valTerm(e.Val))
-					if e.Stor.Name == chName && (eqInt(outer.Trip, b.ch()) || eqInt(outer.Trip, mkAtom("len("+sn+")", intT))) &&
-						eqUnder(innerL.Trip, wantTrip, assume) && eqInt(e.Idx, innerL.K) && n <= 1 &&
-						isElemOf(inner, b.stor(), specAdd(specMul(b.ch(), innerL.K), outer.K)) && !okR {
+					outer, inner := e.Loops[0], e.Loops[1]
+					cT := e.Stor.ParentIdx // the row dst[c] that is written
+					if !(eqUnder(outer.Trip, b.ch(), assume) || eqInt(outer.Trip, mkAtom("len("+sn+")", intT))) || !eqInt(cT, outer.K) {
+						extra++
+						why = "outer loop is not over the channels"
+						continue
+					}
+					iP := normInt(e.Idx)
+					co, other := iP.coefOf(inner.K)
+					if other || co.Cmp(bigOne) != 0 {
+						extra++
+						why = "row position is not the inner loop index"
+						continue
+					}
+					base := iP.Sub(normInt(inner.K))
+					facts := assume.clone()
+					for _, fc := range e.Facts.list {
+						if fc.Tag != "loop" {
+							facts.add(fc)
+						}
+					}
+					rowLen := mkAtom(fmt.Sprintf("len(%s[%s])", sn, pretty(canon(cT))), intT)
+					facts.add(Cond{Kind: CGE0, P: normInt(rowLen)})
+					facts = simplifyFacts(facts, assume)
+					lo, hi := base.toTerm(), base.Add(inner.TripPoly).toTerm()
+					inner2, n := stripConv(valTerm(e.Val))
+					wantHi := specMin(rowLen, b.length())
+					if eqUnder(lo, zeroT(), facts) && eqUnder(hi, wantHi, facts) && n <= 1 &&
+						inner2 != nil && inner2.Op == OpElem && inner2.Stor != nil && inner2.Stor.Name == b.stor() &&
+						eqUnder(underGuard(inner2.Args[0], b, sn), specAdd(specMul(b.ch(), e.Idx), cT), facts) && disjointFrom(e, matched) {
 						okR = true
 						outerL = outer
+						matched = append(matched, e)
 					} else {
 						extra++
+						why = fmt.Sprintf("region [%s, %s) <- %s", pretty(simplifyUnder(lo, facts)), pretty(simplifyUnder(hi, facts)), valString(e.Val))
 					}
 				}
 				where := c.pos(fn.Pos())
 				c.expect(okR, "C01-R3", "ReadStriped", where, "dst[c][i] <- conv(data[channels*i+c]), c < channels, i < min(len(dst[c]), Length(src))",
-					"striped read region not recognised: "+describeEffects(m))
-				c.expect(extra == 0, "C01-R4", "ReadStriped", where, "no other store or external effect", fmt.Sprintf("%d effects outside the striped region: %s", extra, describeEffects(m)))
+					"striped read region not recognised ("+why+"): "+describeEffects(m))
+				c.expect(extra == 0, "C01-R4", "ReadStriped", where, "no other store or external effect", fmt.Sprintf("%d effects outside the striped region (%s): %s", extra, why, describeEffects(m)))
 				ret := valTerm(o.Ret)
 				okRet := false
 				if ret != nil && outerL != nil {
@@ -332,4 +354,147 @@ func isStripedWidth(t *Term, sn string, b buf, assume *Facts) bool {
 		}
 	}
 	return false
+}
+
+// sregion is one striped store read as an index set: for the channel c of the outer loop, the frames
+// i in [lo, hi) are written at interleaved position channels*i + c.
+type sregion struct {
+	c       *Term // channel (outer loop counter)
+	i       *Term // frame index as a term in the inner loop counter
+	lo, hi  *Term
+	zero    bool
+	srcStor *Storage
+	srcIdx  *Term
+	facts   *Facts
+}
+
+// divByAtom divides a polynomial by an atom (every monomial must contain it).
+func divByAtom(p *Poly, atom *Term) (*Poly, bool) {
+	r := newPoly()
+	for _, mo := range p.m {
+		idx := -1
+		for j, f := range mo.factors {
+			if f.Key() == atom.Key() {
+				idx = j
+				break
+			}
+		}
+		if idx < 0 {
+			return nil, false
+		}
+		fs := append(append([]*Term{}, mo.factors[:idx]...), mo.factors[idx+1:]...)
+		r.addMonom(factorsKey(fs), mo.coef, fs)
+	}
+	return r, true
+}
+
+// stripedRegion reads a store of WriteStriped as the set of frames it covers. Both the single loop with a
+// per-sample branch and the split form (copy loop followed by a zero-fill loop), with a computed position
+// or a running one, give the same sets.
+func stripedRegion(e *Effect, b buf, rows string, assume, pathFacts *Facts, W *Term) (sregion, string) {
+	if e.Kind != EStoreElem || len(e.Loops) != 2 {
+		return sregion{}, "not a store in a channel/frame loop nest: " + e.String()
+	}
+	outer, inner := e.Loops[0], e.Loops[1]
+	rg := sregion{c: canon(outer.K)}
+	p := normInt(underGuard(e.Idx, b, rows)).Sub(normInt(outer.K))
+	iP, ok := divByAtom(p, canon(b.ch()))
+	if !ok {
+		return rg, "position is not channels*i + c"
+	}
+	co, other := iP.coefOf(inner.K)
+	if other || co.Cmp(bigOne) != 0 {
+		return rg, "frame index does not advance by one per iteration"
+	}
+	rg.i = iP.toTerm()
+	base := iP.Sub(normInt(inner.K))
+	lo, hi := base.toTerm(), base.Add(inner.TripPoly).toTerm()
+	facts := assume.clone()
+	for _, fc := range pathFacts.list {
+		facts.add(fc)
+	}
+	// branch decisions of the channel loop's body are plain facts
+	for i := outer.FactBase; i < inner.FactBase && i < len(e.Facts.list); i++ {
+		if e.Facts.list[i].Tag != "loop" {
+			facts.add(e.Facts.list[i])
+		}
+	}
+	// branch decisions inside the inner loop bound the frame index
+	start := inner.FactBase
+	if start > len(e.Facts.list) {
+		start = len(e.Facts.list)
+	}
+	for _, fc := range e.Facts.list[start:] {
+		if fc.Tag == "axiom" || fc.Tag == "loop" {
+			if fc.Tag == "axiom" {
+				facts.add(fc)
+			}
+			continue
+		}
+		if fc.Kind != CGE0 {
+			if fc.P != nil && fc.P.mentions(func(x *Term) bool { return x.Key() == inner.K.Key() }) {
+				return rg, "branch on the frame index that is not an ordering: " + fc.String()
+			}
+			continue
+		}
+		k, oth := fc.P.coefOf(inner.K)
+		switch {
+		case oth:
+			return rg, "non-linear branch on the frame index: " + fc.String()
+		case k.Sign() == 0:
+			facts.add(fc)
+		case k.Cmp(big.NewInt(-1)) == 0: // g - i - 1 >= 0  =>  i < g
+			g := fc.P.Add(iP).AddInt(1).toTerm()
+			hi = specMin(hi, g)
+		case k.Cmp(bigOne) == 0: // i - g >= 0  =>  i >= g
+			g := iP.Sub(fc.P).toTerm()
+			lo = specMax(lo, g)
+		default:
+			return rg, "scaled branch on the frame index: " + fc.String()
+		}
+	}
+	if !(eqUnder(outer.Trip, b.ch(), facts) || strings.HasPrefix(pretty(canon(outer.Trip)), "len(")) {
+		return rg, "outer loop is not over the channels"
+	}
+	// every row length and the width are non-negative
+	facts.add(Cond{Kind: CGE0, P: normInt(W)})
+	e.Val.(*Term).walk(func(x *Term) bool { return true })
+	v := valTerm(e.Val)
+	if v == nil {
+		return rg, "stored value is not scalar"
+	}
+	if z, isC := normIntConst(v); isC && z == 0 {
+		rg.zero = true
+	} else {
+		inner2, n := stripConv(v)
+		if n > 1 || inner2.Op != OpElem {
+			return rg, "stored value is not a bare conversion of a source sample"
+		}
+		rg.srcStor, rg.srcIdx = inner2.Stor, inner2.Args[0]
+		facts.add(Cond{Kind: CGE0, P: normInt(mkAtom("len("+inner2.Stor.Name+")", intT))})
+	}
+	// an empty interval is written as [min(lo,hi), hi)
+	rg.lo, rg.hi = specMin(lo, hi), hi
+	rg.facts = simplifyFacts(facts, assume)
+	return rg, ""
+}
+
+// underGuard rewrites len(rows) to the channel count: the shape guard makes them equal on every path that
+// gets past it, and a refactoring may use either as the stride.
+func underGuard(t *Term, b buf, rows string) *Term {
+	if t == nil {
+		return t
+	}
+	return t.subst(map[string]*Term{"len(" + rows + ")": b.ch()})
+}
+
+// disjointFrom: the effect lies on a different path than every effect already matched (the same region explored
+// once per branch of the enclosing loop body is one region, not two).
+func disjointFrom(e *Effect, prev []*Effect) bool {
+	for _, p := range prev {
+		if !contradict(e.Facts, p.Facts) {
+			return false
+		}
+	}
+	return true
 }
